@@ -91,7 +91,7 @@ def run(ctx, report: Report) -> None:
                          f'match_lang tests `{b}` by truthiness in `{unparse(test)[:70]}`; `{b}` is None for "nothing found" but '
                          f'may legitimately be the empty string (lang=""), which this test confuses with "nothing found"')
 
-    r2 = report.rule('C13-R2', 'the <meta> memo is transparent', floor=3)
+    r2 = report.rule('C13-R2', 'the <meta> memo is transparent', floor=2)
     from .sem import lang_memo_table
     lang_memo_table(ctx, r2)
 
@@ -157,7 +157,7 @@ def run(ctx, report: Report) -> None:
                          f'crosses namespaces (SVG/MathML inside HTML)')
 
     # ---- R6 ----------------------------------------------------------------------------------------------
-    r6 = report.rule('C13-R6', 'language of an element: nearest lang attribute, else the content-language pragma (decision table)', floor=6)
+    r6 = report.rule('C13-R6', 'language of an element: nearest lang attribute, else the content-language pragma (decision table)', floor=4)
     from .sem import lang_logic_table, lang_table
     lang_table(ctx, r6)
     lang_logic_table(ctx, r6)
